@@ -41,7 +41,7 @@ def conclude(mod, tier, seed, specs, recs, dead, wall, replay=None, verbose=Fals
             monitors[k] = monitors.get(k, 0) + v
         for k, v in r.get("extra", {}).items():
             if isinstance(v, (int, float)) and not isinstance(v, bool):
-                extra[k] = extra.get(k, 0) + v
+                extra[k] = max(extra.get(k, v), v) if k.startswith("max_") else extra.get(k, 0) + v
             else:
                 extra.setdefault(k, v)
         if r.get("nontrivial") and r.get("sig"):
